@@ -887,7 +887,10 @@ class SVDMimo(Blast):
             The receive_filter that can be applied to the input data.
         """
         Nt = channel.shape[1]
-        U, S, _ = np.linalg.svd(channel)
+        # The economy-size SVD keeps only the left singular vectors that
+        # correspond to the singular values, so that the filter is also
+        # defined when there are more receive than transmit antennas.
+        U, S, _ = np.linalg.svd(channel, full_matrices=False)
         G_H = np.diag(1. / S).dot(U.conj().T) * math.sqrt(Nt)
         return G_H
 
